@@ -155,6 +155,14 @@ func ruleC16Every(c *Ctx, m *Model) {
 			}
 			for _, f := range st.facts {
 				if strings.HasPrefix(f, "+Has:"+table+".Has(") {
+					// "present" counts only under the data id the probe loop settled on for this hash; a raw
+					// candidate id (CreateID with a fixed collision counter) may belong to other data
+					if key := strings.TrimPrefix(f, "+Has:"+table+".Has("); strings.HasPrefix(key, "invoke:CreateID(") {
+						if bad == "" {
+							bad = "the record is looked up under a raw candidate id (" + clip(key, 120) + "), not under the data id the collision walk settled on: when that slot belongs to other data the hash is taken for already dealt with"
+						}
+						continue
+					}
 					done = true
 				}
 			}
